@@ -130,6 +130,10 @@ def recurrence(fn, F, var, f, keyname, keyidx, rkvar=None):
             node = CT.parse(text)
         except CT.ParseError:
             return None
+        if node[0] == 'ver':
+            node = node[1]
+        if node[0] == 'call' and node[1] in ('index', 'index_mut') and len(node[2]) == 2 and node[2][0][0] == 'ver':
+            node = ('call', node[1], [node[2][0][1], node[2][1]], None)
         if node[0] == 'sym' and node[1] in lens:
             return (node[1], 0, lens[node[1]])
         if node[0] == 'call' and node[1] in ('index', 'index_mut') and len(node[2]) == 2 and node[2][0][0] == 'sym' and node[2][1][0] == 'aggr':
